@@ -621,7 +621,8 @@ pub fn run(ctx: &mut Ctx) {
     // ---- phase: long byte vectors (beyond any plausible read-chunk size) and their truncations:
     // the complete encoding is accepted, every strict prefix is rejected (all these types are
     // self-delimiting), and nothing accepted re-encodes differently.
-    let big_lens: Vec<usize> = vec![65_536, 131_072, 131_073, 140_000, 262_145, 1_048_577];
+    // 4 000 000 is the largest vector the decoders accept
+    let big_lens: Vec<usize> = vec![65_536, 131_072, 131_073, 140_000, 262_145, 1_048_577, 4_000_000];
     let n = ctx.budget(big_lens.len() as u64 * 5, big_lens.len() as u64 * 5 * 8);
     ctx.phase("long-vectors", n, |ctx, k| {
         let n = big_lens[(k as usize / 5) % big_lens.len()];
